@@ -9,6 +9,26 @@ NOTE_COMMON = ("Trusted: Lean 4.33 kernel; axioms ⊆ {propext, Classical.choice
                "implementation by differential execution (sampled), not by proof. ")
 
 CLAIMED = {
+ "C03": dict(
+   text=("Lean theorems for every string: decoding saxutils-escaped text with the predefined XML references returns the string (unescape_escape / "
+         "xmlUnescape_escape, fuel-bounded single-pass decoder), escaped text contains neither '<' nor '>' so it cannot open or close markup "
+         "(escape_no_angle). Executable models of the text-serialising functions of all writers (DFXP/single/legacy _recreate_text with the open_span "
+         "state, SAMI _recreate_text, WebVTT _group_cues_by_layout and escaping, whole SRT and MicroDVD documents) are compared with the implementation; "
+         "every writer's complete output is parsed by an independent conformant parser (lxml strict XML, html.parser, harness WebVTT/SRT/MicroDVD grammars) "
+         "and must yield exactly the caption's lines per cue, for adversarial texts with optional empty lines."),
+   ref="§3 C03", technique="Lean 4 proof (escape/unescape round trip by induction) + model correspondence + independent-parser oracle on writer output",
+   note=NOTE_COMMON + "Round-trip theorems for the WebVTT escaping and the 'no empty line inside a cue' claims are not proved yet (model + correspondence + oracle only). "
+        "prettify(formatter=None) and the conformance of lxml / html.parser are trusted. MicroDVD texts exclude '|' as the property says."),
+ "C04": dict(
+   text=("Lean model of the DFXP/SAMI text-leaf rule (the pinned pattern ^(?:[\\n\\r]+\\s*)?(.+) with its backtracking, plus the wrapped-line remainder) with "
+         "theorems leaf_single_line (a one-line leaf is read verbatim, nothing decoded twice at this stage) and splitWs_no_space; executable models of the "
+         "SRT, MicroDVD and WebVTT readers including WebVTT _decode (voice/other span patterns as specialised matchers for the pinned regex texts, "
+         "'&amp;' replaced last). All five readers are run on documents produced by independent serialisers from an abstract caption with spelling variants "
+         "(literal/named/decimal/hex), source line wrapping and tag nestings, and must return the authored lines up to whitespace."),
+   ref="§3 C04", technique="Lean 4 model + theorems for the leaf rule, pinned regex texts, differential correspondence, independent-serialiser oracle",
+   note=NOTE_COMMON + "HTML/XML tokenisation and entity tables belong to html.parser/lxml (trusted, tied by execution); bs4's collapsing of blank-only strings is reproduced in the harness. "
+        "Known finding C04-webvtt-charrefs (numeric / non-core named references in WebVTT cue text stay undecoded) is listed in known_findings.json. Tags whose name starts with c,i,b,u,v but is not a WebVTT tag are outside the generated domain."),
+
  "C02": dict(
    text=("Lean theorems: for EVERY instant below 24 h (integer or fractional microseconds) the shared hh:mm:ss.mmm formatter and the WebVTT [hh:]mm:ss.mmm "
          "formatter produce fixed-width fields with mm,ss<60 that an independent reader maps back to the instant truncated to milliseconds (format_denotes, "
